@@ -130,11 +130,18 @@ Definition chk_fista (r : res (@fstate Q * list (Ext Q) * Ext Q * nat)) (o : obs
 
 (* ---------------- AndersonAcceleration: the real class with np.linalg.solve replaced by a dyadic rule ---------------- *)
 Require Import SK.Skel.Anderson.
-(* z_k = 1 if the k-th difference vector is zero else 2; LinAlgError when the first difference is zero *)
+(* LinAlgError when the first difference vector is zero; otherwise z_k = 1 except at the LAST non-zero difference vector,
+   which gets 2^ceil(log2 K) - (K - 1): the weights depend on the iterates and sum to a power of two (dyadic coefficients) *)
+Definition pow2_ge (n : nat) : Z :=
+  (fix go (f : nat) (m : Z) : Z := match f with O => m | S f' => if (m <? Z.of_nat n)%Z then go f' (2 * m)%Z else m end) n 1%Z.
+Definition heavy_z (nz : list bool) : list Q :=
+  let n := length nz in
+  let h := fold_left (fun (acc : nat) (kb : nat * bool) => if snd kb then fst kb else acc) (combine (seq 0 n) nz) O in
+  map (fun k => if (k =? h)%nat then (pow2_ge n - (Z.of_nat n - 1))%Z # 1 else 1) (seq 0 n).
 Definition mock_solve_z (U : list (list Q)) : option (list Q) :=
   match U with
   | [] => None
-  | u0 :: _ => if Qeqb (vdot u0 u0) 0 then None else Some (map (fun u => if Qeqb (vdot u u) 0 then 1 else 2) U)
+  | u0 :: _ => if Qeqb (vdot u0 u0) 0 then None else Some (heavy_z (map (fun u => negb (Qeqb (vdot u u) 0)) U))
   end.
 
 (* run a sequence of calls; outputs per call: (w_out, Xw_out, extrapolated?) *)
@@ -204,7 +211,7 @@ Definition mock_solve_z_N (N : Num Q) (U : list (list Q)) : option (list Q) :=
   match U with
   | [] => None
   | u0 :: _ => if @feqb Q N (@vdot Q N u0 u0) 0 then None
-               else Some (map (fun u => if @feqb Q N (@vdot Q N u u) 0 then 1 else 2) U)
+               else Some (heavy_z (map (fun u => negb (@feqb Q N (@vdot Q N u u) 0)) U))
   end.
 Definition gram_case_aa_N (N : Num Q) (X : list (list Q)) (y : list Q) (max_iter : nat) (tol : Q) (use_acc greedy : bool)
     (score : list Q -> list Q -> list Z -> res (list (Ext Q))) (prox : Q -> Q -> Z -> res Q)
